@@ -844,6 +844,52 @@ def ob_range_operands(run, mir, rp, fam):
     run.samples.append({"obligation": ob.id, "ok_paths": n_ok})
 
 
+def ob_raise_arguments(run, mir, rp, fam):
+    ob = run.ob("raise-arguments-checked", "E2", "gen_stmt, the Raise arm: on every successful path the raised expression - a constructor call - is itself "
+                "generated in the incoming environment, so its arguments are counted, typed and looked up like those of any other constructor call",
+                ["gen_stmt (Raise)"])
+    fn = e2.find1(mir, file=STMT_RS, name="gen_stmt")
+    ex = Exec(mir, max_paths=20000)
+    st = State()
+    name_ast, _ = ckern.mk_ast("name", ckern.mk_node("Id", {"lit": opq("lit", "String")}))
+    call, _ = ckern.mk_ast("error", ckern.mk_node("FunctionCall", {"name": Ref(ex.new_cell(st, name_ast)), "args": opq("args", "Vec<AST>")}))
+    err = Ref(ex.new_cell(st, call))
+    ast, _ = ckern.mk_ast("ast", ckern.mk_node("Raise", {"error": err}))
+    env, ctx, constr = ckern.refs(ex, st, "env", "ctx", "constr")
+    ends = e2.run_kernel(run, ex, fn, [Ref(ex.new_cell(st, ast)), env, ctx, constr], st)
+    claims, n_ok = [], 0
+    for p in ends:
+        if result_kind(p) != "Ok":
+            continue
+        n_ok += 1
+        s = p.state
+        seen = disj([z3.And(g["argvals"][0] == ex.to_val(s, err), g["argvals"][1] == ex.to_val(s, env)) for g in calls(p, "generate")])
+        claims.append(z3.Implies(conj(p.cond), seen))
+    if not n_ok:
+        raise Unsupported("no Ok path in the Raise arm")
+    f = e2.Family(rp)
+    head = "class E(msg: Str): Exception(msg)\ndef f(x: Int) -> Int raise [E] =>\n    if x = 1 then raise "
+    f.add("raise-undefined-argument", head + "E(zz)\n    x\n", "reject")
+    f.add("raise-wrong-argument-type", head + "E(3)\n    x\n", "reject")
+    f.add("raise-surplus-argument", head + "E(\"a\", 2)\n    x\n", "reject")
+    f.add("raise-missing-argument", head + "E()\n    x\n", "reject")
+    f.add("raise-conforming", head + "E(\"a\")\n    x\n", "accept")
+
+    def replay(model):
+        r = f.as_replay("raise-arguments:")(model)
+        if r and r.get("reproduced"):
+            r["role"] = "raise-arguments:not-generated"
+        return r
+    e2.prove(run, ob, ex, [], conj(claims), {}, replay)
+    if ob.status == "discharged":
+        k, bad = f.run()
+        run.validated += k
+        if bad:
+            ob.status = "pending"
+            ob.inconclusive(f"raise family disagrees although the kernel is as specified: {bad[:2]}")
+    run.samples.append({"obligation": ob.id, "ok_paths": n_ok})
+
+
 FLOW_RS = ckern.GEN + "control_flow.rs"
 
 
@@ -1788,7 +1834,7 @@ def run(run):
                "outside: that a violation is still caught in every nesting context (branch forking in ConstrBuilder); the accepted-exactly-when direction for whole programs")
     run.trusted += ["rustc nightly MIR dump", "mirsym MIR semantics", "z3"]
     run.bounds = {"paths": "all paths of each kernel with loops cut at their headers"}
-    for f in (ob_call_parameters, ob_argument_signature, ob_call_result, ob_compound_assignment, ob_method_parameters, ob_fn_value_arguments, ob_access_direction, ob_shadow_mapping, ob_operator_typing, ob_range_operands, ob_flow_constraints, ob_return, ob_id_from_var, ob_initialiser_scope, ob_fun_body, ob_fun_body_scope, ob_branch_scope, ob_arm_scope, ob_unify_type):
+    for f in (ob_call_parameters, ob_argument_signature, ob_call_result, ob_compound_assignment, ob_method_parameters, ob_fn_value_arguments, ob_access_direction, ob_shadow_mapping, ob_operator_typing, ob_range_operands, ob_raise_arguments, ob_flow_constraints, ob_return, ob_id_from_var, ob_initialiser_scope, ob_fun_body, ob_fun_body_scope, ob_branch_scope, ob_arm_scope, ob_unify_type):
         try:
             f(run, mir, rp, fam)
         except Unsupported as e:
